@@ -165,6 +165,9 @@ func genVCs(w *World, db *ContractDB, ct *Contract) (res *FnResult) {
 	f.run(st)
 	// postconditions on every return edge
 	var retConds []string
+	// vacuity guard per postcondition: for "ensures A ==> B" some return must be reachable with A true, otherwise
+	// the clause says nothing (e.g. the success path became infeasible in the model)
+	anteReach := map[*SpecExpr][]string{}
 	for k, r := range f.rets {
 		retConds = append(retConds, r.cond)
 		penv := f.specEnv(r.st)
@@ -194,6 +197,16 @@ func genVCs(w *World, db *ContractDB, ct *Contract) (res *FnResult) {
 			}
 			_ = k
 			e.addOb("post", en.Text, en.Tags, en.Src+" @return "+r.pos, r.cond, t)
+			if imp := implicationAntecedent(en.Expr); imp != nil {
+				if at, err := penv.evalBool(&SpecExpr{Expr: imp, Text: en.Text, Src: en.Src}); err == nil {
+					anteReach[en] = append(anteReach[en], and(r.cond, at))
+				}
+			}
+		}
+	}
+	for _, en := range ct.Ensures {
+		if cs := anteReach[en]; len(cs) > 0 {
+			e.items = append(e.items, item{ob: &Obligation{Name: ct.Rel + "#cover:post:" + en.Text, Fn: ct.Rel, Kind: "cover", Tags: en.Tags, Goal: or(cs...), idx: len(e.items)}})
 		}
 	}
 	// a ghost assertion whose anchor matches no call/send can no longer be checked: undischarged
@@ -524,4 +537,18 @@ func sameCallees(fn *ssa.Function) []string {
 	}
 	sort.Strings(out)
 	return out
+}
+
+// implicationAntecedent returns A for a clause of the form "A ==> B" (the spec parser represents ==> as a binary
+// operator node), nil otherwise.
+func implicationAntecedent(x ast.Expr) ast.Expr {
+	switch y := x.(type) {
+	case *ast.ParenExpr:
+		return implicationAntecedent(y.X)
+	case *ast.CallExpr:
+		if id, ok := y.Fun.(*ast.Ident); ok && id.Name == "implies" && len(y.Args) == 2 {
+			return y.Args[0]
+		}
+	}
+	return nil
 }
